@@ -55,12 +55,13 @@ type Placement struct {
 	live                     map[string]map[uint64]string // chain -> id -> "pool" | "batch:n"
 	terminal                 map[string]map[uint64]string // chain -> id -> "executed" | "refunded"
 	lastID                   map[string]uint64
+	hashUse                  map[string]int               // tx hash -> number of transfers carrying it
 	hashOf                   map[string]map[uint64]string // chain -> id -> tx hash (unique ones only)
 	Rebatched, Returned, Big int
 }
 
 func NewPlacement() *Placement {
-	p := &Placement{live: map[string]map[uint64]string{}, terminal: map[string]map[uint64]string{}, lastID: map[string]uint64{}, hashOf: map[string]map[uint64]string{}}
+	p := &Placement{live: map[string]map[uint64]string{}, terminal: map[string]map[uint64]string{}, lastID: map[string]uint64{}, hashOf: map[string]map[uint64]string{}, hashUse: map[string]int{}}
 	for _, c := range ExtChains {
 		p.live[c] = map[uint64]string{}
 		p.terminal[c] = map[uint64]string{}
@@ -173,8 +174,9 @@ func (p *Placement) Step(it *Interp, st *StepInfo) {
 			}
 			p.lastID[ch] = id
 			p.live[ch][id] = place
+			p.hashUse[entry[id].TxHash]++
 		}
-		if st.SendOK && ExtChains[st.Op.C%3] == ch {
+		if st.SendOK && st.Op.K == "send" && ExtChains[st.Op.C%3] == ch {
 			if _, ok := now[st.NewID]; !ok {
 				it.Fail("C04", "accepted-transfer-missing", "%s: send accepted with id %d but the transfer is nowhere", ch, st.NewID)
 				return
@@ -183,8 +185,8 @@ func (p *Placement) Step(it *Interp, st *StepInfo) {
 		// status follows the life-cycle (only for transfers with a tx hash of their own)
 		ctx := it.H.Ctx()
 		for id, e := range entry {
-			if !uniqueHash(e.TxHash) {
-				continue
+			if !uniqueHash(e.TxHash) || p.hashUse[e.TxHash] != 1 {
+				continue // status is keyed by tx hash; transfers sharing one share a status by design
 			}
 			s := it.H.K.GetTxStatus(ctx, e.TxHash).Status
 			place := now[id]
@@ -201,7 +203,7 @@ func (p *Placement) Step(it *Interp, st *StepInfo) {
 		}
 		for id, why := range p.terminal[ch] {
 			e := preEntry[id]
-			if e == nil || !uniqueHash(e.TxHash) {
+			if e == nil || !uniqueHash(e.TxHash) || p.hashUse[e.TxHash] != 1 {
 				continue
 			}
 			s := it.H.K.GetTxStatus(ctx, e.TxHash).Status
@@ -548,6 +550,11 @@ func (c *Refunds) Step(it *Interp, st *StepInfo) {
 		postPool := map[uint64]*mtypes.SendToExternal{}
 		for _, e := range st.Post.Chains[ch].Pool {
 			postPool[e.Id] = e
+			// the sweep runs in every EndBlocker: an expired transfer that has something to give back is gone now
+			if it.expired(e) && e.RefundChainId != "" && it.refundValue(ch, e).Sign() > 0 {
+				it.Fail("C12", "expired-not-refunded", "%s: transfer %d created at %d is still unbatched at %d although the timeout %s has passed", ch, e.Id, e.CreatedAt, it.Now, it.timeout())
+				return
+			}
 		}
 		if !quiet {
 			continue
